@@ -417,19 +417,28 @@ class SWorld(object):
             g.update(dr.get_dependency_graph(q))
         return g
 
-    def run(self, active, outcome, mode):
+    def extra_ds(self):
+        """a datasource component that belongs to no spec and is in no evaluated graph (pre-populated in seed brokers)"""
+        def fn(broker):
+            return "never-evaluated"
+        fn.__name__ = "extra_%s_%d" % (self.tag, len(self.calls))
+        fn.__qualname__ = fn.__name__
+        return datasource()(fn)
+
+    def run(self, active, outcome, mode, broker=None):
+        """`broker`: a prepared broker (derived from a seed broker) to evaluate on; the active contexts are put into it"""
         self.outcome = dict(outcome)
         self.calls = []
         self.parser_calls = []
         self.made = {}
         g = self.graph()
         order = dr.run_order(dict((k, set(v)) for k, v in g.items()))
-        b = dr.Broker()
-        for c in active:
-            b[self.ctxs[c]] = self.ctxs[c]()
+        b = dr.Broker() if broker is None else broker
         err = None
         off = [self.comps[c] for c, o in outcome.items() if o == "disabled" and c in self.comps]
         try:
+            for c in active:
+                b[self.ctxs[c]] = self.ctxs[c]()
             for comp in off:
                 dr.set_enabled(comp, False)
             if mode == "run":
@@ -673,6 +682,66 @@ def oracle(report, world, case, active, b, err, desc):
                        "the latest implementation for context %d (%d) is not below this point: everything below it is overridden"
                        % (c, last["cid"]) if last is not None else "no implementation is declared for context %d" % c)
                 report.failure("spec %s, %s: present with %r although %s" % (sp, lvl, b.instances[point], why), desc, finding=fid)
+
+
+def run_derived(world, step, report, desc, sink=None, verbose=False):
+    """SEVERAL EVALUATIONS ON BROKERS DERIVED FROM ONE SEED BROKER: seed = dr.Broker() holding step["seed"] unrelated
+    values (and, step["prepop"], a pre-populated datasource of no spec); b_k = dr.Broker(seed) for every evaluation, ALL
+    created first; then b_k is given the active context(s) of evaluation k and evaluated, one after the other.
+    Each evaluation is held to the usual oracle (as if it were the only one) and must hold no context of another
+    evaluation; the seed's content is in every derived broker; afterwards the seed is unchanged and no two of the
+    brokers share an instance table."""
+    seed = dr.Broker()
+    unrelated = []
+    for i in range(step.get("seed", 0)):
+        unrelated.append(("unrelated_%d_%s" % (i, world.tag), ["seed-value", i]))
+    if step.get("prepop"):
+        unrelated.append((world.extra_ds(), ["pre-populated"]))
+    for k, v in unrelated:
+        seed[k] = v
+    snap = list(seed.instances.items())
+    brokers = [dr.Broker(seed) for _ in step["evals"]]
+    n = len(brokers)
+    for k, ev in enumerate(step["evals"]):
+        outcome = dict((int(c), o) for c, o in ev["outcome"].items())
+        b, order, keys, err = world.run(ev["active"], outcome, ev.get("mode", "run"), broker=brokers[k])
+        where = "evaluation %d of %d on brokers derived from one seed broker (active %s)" % (k + 1, n, ev["active"])
+        col = _Collect()
+        oracle(col, world, world.pcase(), ev["active"], b, err, desc)
+        for d, f in col.found:
+            report.failure(where + ": " + d, desc, finding=f)
+        try:
+            table = b.instances
+            for i, cx in enumerate(world.ctxs):
+                if cx in table and i not in ev["active"]:
+                    report.failure(where + ": the broker holds an object for context %d, which is not active in this evaluation "
+                                   "(left over from another evaluation)" % i, desc)
+            for key, v in unrelated:
+                if key not in table or table[key] is not v:
+                    report.failure(where + ": the seed broker's entry %r is %s in the derived broker"
+                                   % (getattr(key, "__name__", key), "missing" if key not in table else "another object"), desc)
+        except Exception as ex:
+            report.failure(where + ": the broker cannot be inspected: %s" % type(ex).__name__, desc)
+        if verbose:
+            print("  %s, outcomes %s -> %s%s" % (where, outs_text(outcome), world.run_text(b, err),
+                                                "".join("\n    oracle: %s%s" % (d, (" (known finding %s)" % f) if f else "")
+                                                        for d, f in col.found)))
+        if sink is not None:
+            sink(k, ev, b, order, keys, err, outcome)
+    try:
+        now = list(seed.instances.items())
+        if len(now) != len(snap) or any(k1 is not k2 or v1 is not v2 for (k1, v1), (k2, v2) in zip(snap, now)):
+            report.failure("the SEED broker changed while brokers derived from it were evaluated: keys %r, were %r"
+                           % ([getattr(k, "__name__", k) for k, _ in now], [getattr(k, "__name__", k) for k, _ in snap]), desc)
+        tables = [seed.instances] + [b.instances for b in brokers]
+        if any(tables[i] is tables[j] for i in range(len(tables)) for j in range(i)):
+            report.failure("brokers derived from one seed broker share an instance table", desc)
+        sentinel = "sentinel_" + world.tag
+        brokers[0][sentinel] = 1
+        if any(sentinel in b for b in brokers[1:]) or sentinel in seed:
+            report.failure("a value put into the first derived broker is in another derived broker / in the seed broker", desc)
+    except Exception as ex:
+        report.failure("seed / derived brokers cannot be inspected after the evaluations: %s: %s" % (type(ex).__name__, ex), desc)
 
 
 def flags_oracle(report, world, case, desc):
@@ -1001,6 +1070,46 @@ def check_world(chk, report, rng, case, lines, impl, cases, runs_per_ctx):
     for active in actives:
         for j in range(runs_per_ctx):
             evaluate(active, ["all-v", "latest-bad", "one-bad", "random"][j % 4], "run")
+    # several evaluations on brokers DERIVED FROM ONE SEED BROKER, under different active contexts
+    if rng.random() < 0.6:
+        nev = rng.randint(2, 4)
+        r = rng.random()
+        if r < 0.35:
+            acts = [rng.randrange(world.nctx) for _ in range(nev)]                   # any order, repetitions
+        elif r < 0.6:
+            x = rng.randrange(world.nctx)
+            acts = [x] + [rng.randrange(world.nctx) for _ in range(nev - 2)] + [x]   # the same context class twice
+        else:
+            acts = (rng.sample(range(world.nctx), world.nctx) * 2)[:nev]             # every context in turn
+        styles = ["all-v"] + [rng.choice(["latest-bad", "latest-bad", "random", "one-bad", "all-v"]) for _ in range(nev - 1)]
+        if rng.random() < 0.3:
+            rng.shuffle(styles)
+        evs = []
+        for a, st in zip(acts, styles):
+            active = [a] if rng.random() < 0.93 else []
+            o = gen_outcome(rng, world, st)
+            evs.append({"active": active, "outcome": dict((str(k), v) for k, v in o.items()),
+                        "mode": rng.choice(["run", "run", "components", "run-list", "incremental", "run-all"])})
+        step = {"seed": rng.choice([0, 0, 1, 3]), "prepop": rng.random() < 0.3, "evals": evs}
+        script.append({"derived": step})
+
+        def sink(k, ev, b, order, keys, err, outcome):
+            lines.append(world.run_line(ev["active"], order, keys, outcome))
+            impl.append(world.run_text(b, err))
+            cases.append({"case": case, "what": "derived-run %d/%d" % (k + 1, len(evs)), "active": ev["active"],
+                          "outcome": outs_text(outcome), "script": list(script)})
+            if chk is not None:
+                chk.case(("derived", len(case["classes"]), tuple(acts), k, tuple(sorted(outcome.values())), impl[-1].split("|inv=")[1]),
+                         nontrivial=k > 0 and bool(world.calls))
+        run_derived(world, step, report, {"case": case, "script": list(script)}, sink=sink)
+        if chk is not None:
+            chk.count("derived-brokers:%d-evaluations-on-one-seed" % nev)
+            chk.count("derived-brokers:seed-" + ("pre-populated-datasource" if step["prepop"] else "empty" if not step["seed"]
+                                                 else "unrelated-values"))
+            if len(set(acts)) < len(acts):
+                chk.count("derived-brokers:same-context-class-twice")
+            if len(set(acts)) > 1:
+                chk.count("derived-brokers:different-contexts")
     if chk is not None:
         chk.count("history:%d-interleaved-evaluations" % sum(evals_at.values()))
         chk.count("history:decorator-types-" + (case.get("ds_mode") or "plain-only"))
@@ -1236,6 +1345,11 @@ def run_script(w, with_lines=False):
             if with_lines:
                 print("  after class %d: %s%s" % (st["def"], world.flags_text(),
                                                    "".join("\n    oracle: %s" % d for d, _ in col.found)))
+        elif "derived" in st:
+            col = _Collect()
+            run_derived(world, st["derived"], col, {}, verbose=with_lines)
+            found = col.found
+            b = None
         else:
             ev = st["eval"]
             outcome = dict((int(k), v) for k, v in ev["outcome"].items())
@@ -1327,6 +1441,12 @@ def run(chk):
                 "flat histories RE-EXPORT an earlier implementation object under the same name (`p0 = Earlier.p0`, third known "
                 "finding); evaluation through dr.run(graph), dr.run([components]), dr.run_components, dr.run_incremental (one "
                 "shared broker) and dr.run_all; "
+                "60% of the histories end with 2-4 evaluations on brokers DERIVED FROM ONE SEED BROKER (dr.Broker(seed), all created "
+                "first; seed empty / holding unrelated values / a pre-populated datasource of no spec), each given its own active "
+                "context (any order, the same context class twice, every context in turn; rarely none), evaluated one after the "
+                "other through the five entry points: each is held to the whole oracle as if it were the only one and compared with "
+                "the model's run from the seed's content only, holds no context of another evaluation, keeps the seed's entries; "
+                "afterwards the seed is unchanged and no two brokers share an instance table; "
                 "non-trivial = one active context, a spec with >= 2 wired implementations, something invoked; "
                 "distinct = history shape x active context x outcome multiset x invocation log")
     chk.assumptions = [
@@ -1392,6 +1512,7 @@ def run(chk):
                        ("run", "evaluation(values,missing,invocations)"),
                        ("prefix-registration", "interleaved:registration-of-prefix"),
                        ("prefix-run", "interleaved:evaluation-of-prefix"),
+                       ("derived-run", "derived-brokers(one seed broker, several contexts):evaluation"),
                        ("flags", "registration(flags of every point and datasource)"),
                        ("prefix-flags", "interleaved:flags-after-every-class-definition")):
         for hier in (False, True):
